@@ -11,6 +11,7 @@ package stcp
 //
 //@ ghost exits int
 //@ ghost lastPopped interface{}
+//@ ghost sendErr error
 //@ pure swf(s *Session) bool = s != nil && s.b != nil && s.sendQ != nil && s.sendQ.reqList != nil && !held(s.sendQ.lock) && errsOK() && (s.rh != nil || s.b.rh != nil)
 //
 //@ func ISession.OnExit
@@ -48,12 +49,14 @@ package stcp
 // loopSend: whatever ends the loop, quit runs; a popped item is written whole and unmodified before the next pop; the
 // loop ends without a send error only when the queue is closed and drained (PopAnyway's contract) or an item is invalid
 //@ func Session.loopSend
-//@   requires swf(s) && s.conn != nil && !oncedone(s.exitOnce)
+//@   requires swf(s) && s.conn != nil && !oncedone(s.exitOnce) && sendErr == nil
 //@   aftercall PopAnyway lastPopped = result
+//@   aftercall send sendErr = result
 //@   ensures #quit oncedone(s.exitOnce) && exits == old(exits) + 1 && atomicDecs == old(atomicDecs) + 1 && connCloses == old(connCloses) + 1
 //@   modifies everything()
 //@   loop 1
 //@     invariant swf(s) && s.conn != nil && !oncedone(s.exitOnce) && exits == old(exits) && atomicDecs == old(atomicDecs) && connCloses == old(connCloses)
+//@     invariant #stopsonerror sendErr == nil
 //
 //@ func Session.loopReceive
 //@   requires swf(s) && s.conn != nil && !oncedone(s.exitOnce)
